@@ -81,10 +81,12 @@ def bounds(tier):
         return {"max_leaves": 5, "layers": ["none", "unit", "cyc123", "pow2", "partial"],
                 "layers_at_max": ["none", "unit", "cyc123", "pow2", "partial"],
                 "internal_taxa_max_leaves": 4, "internal_taxa_internal_prune_sets_only_at": 5, "containers_max_leaves": 4, "unifurcation_max_leaves": 4,
+                "unifurcation_all_orders_up_to": 4,
                 "node_extract_max_leaves": 5, "subsets": "all non-empty"}
     return {"max_leaves": 6, "layers": ["none", "unit", "cyc123", "pow2", "partial"],
             "layers_at_max": ["none", "pow2", "partial"],
             "internal_taxa_max_leaves": 5, "internal_taxa_internal_prune_sets_only_at": 6, "containers_max_leaves": 5, "unifurcation_max_leaves": 5,
+            "unifurcation_all_orders_up_to": 4,
             "node_extract_max_leaves": 6, "subsets": "all non-empty"}
 
 
@@ -114,9 +116,11 @@ def chunks(tier):
             out.append({"kind": "containers", "n": n, "lo": lo, "hi": min(ns, lo + step), "tier": tier})
     for n in range(1, b["unifurcation_max_leaves"] + 1):
         ns = len(U.shapes(n))
-        step = 8 if n >= 5 else 30
+        step = 1 if n >= 4 else 30
+        parts = 4 if n == 4 else 1
         for lo in range(0, ns, step):
-            out.append({"kind": "unif", "n": n, "lo": lo, "hi": min(ns, lo + step), "tier": tier})
+            for part in range(parts):
+                out.append({"kind": "unif", "n": n, "lo": lo, "hi": min(ns, lo + step), "tier": tier, "parts": parts, "part": part})
     for n in range(3, b["node_extract_max_leaves"] + 1):
         ns = len(U.shapes(n))
         step = 200 if n >= 6 else 300
@@ -372,7 +376,14 @@ def _report_difference(ctx, case, sn, got, want, want_other, keep, unrooted_leni
             if feat is None and has_unifurcation(got) != has_unifurcation(want):
                 feat = "unifurcations"
     else:
-        feat = classify(got, want, want_other, modulo_unif=bool(case.get("unif")) and bool(case.get("suppress")))
+        # Sources that already contain out-degree-one nodes: with suppression requested and at
+        # least one leaf excluded every such node must be gone (that is what in-place pruning does,
+        # and the statement wants extraction to agree with it).  Only when nothing at all is
+        # excluded is the comparison modulo out-degree-one nodes: extract_tree documents that
+        # suppression "only will be done if some nodes are excluded".
+        nothing_excluded = sorted(ref.leaves(want), key=_lkey) == sorted(ref.leaves(sn), key=_lkey)
+        feat = classify(got, want, want_other,
+                        modulo_unif=bool(case.get("unif")) and bool(case.get("suppress")) and nothing_excluded)
     if feat == "flag":
         if case.get("suppress"):
             f = "unifurcations-kept-although-suppression-requested"
@@ -489,7 +500,7 @@ def check_inplace(case, ctx):
         ctx.violation(_sig(case, "exception|%s" % type(e).__name__),
                       "%s(survivors=%s, %s) on %s raised %r" % (api, sorted(keep), kw, ref.to_newick(sn), e), case)
         return
-    _after_inplace(ctx, case, sn, tree, bit, keep, drop_empty, removed_subtrees, ret, expect_removed, index, cl)
+    return _after_inplace(ctx, case, sn, tree, bit, keep, drop_empty, removed_subtrees, ret, expect_removed, index, cl)
 
 
 def _after_inplace(ctx, case, sn, tree, bit, keep, drop_empty, removed_subtrees, ret, expect_removed, index, cl):
@@ -530,6 +541,7 @@ def _after_inplace(ctx, case, sn, tree, bit, keep, drop_empty, removed_subtrees,
             ctx.violation(_sig(case, "removed-nodes"),
                           "%s on %s (survivors %s) reported removed nodes %s (pre-order indices in the source, -1 = not a node of the tree), the removed ones are %s" % (
                               case["api"], ref.to_newick(sn), sorted(keep), gotidx, exp), case)
+    return got
 
 
 def check_subtree(case, ctx):
@@ -636,8 +648,8 @@ def check_extract(case, ctx):
     if want is None:
         raise AssertionError("harness: empty expectation generated for %r" % (case,))
     survivors = frozenset(x for x in ref.leaves(want) if x is not None)
-    _after_extract(ctx, case, sn, tree, nodes, index, cl, other, other._seed_node if other is not None else None,
-                   want, wother, survivors, attr_name, attr is not None)
+    return _after_extract(ctx, case, sn, tree, nodes, index, cl, other, other._seed_node if other is not None else None,
+                          want, wother, survivors, attr_name, attr is not None)
 
 
 def _after_extract(ctx, case, sn, tree, nodes, index, cl, other_tree, other_seed, want, wother, survivors, attr_name, expect_attr,
@@ -667,7 +679,11 @@ def _after_extract(ctx, case, sn, tree, nodes, index, cl, other_tree, other_seed
         return
     got = ref.snap_node(other_seed)
     _report_difference(ctx, case, sn, got, want, wother, survivors)
-    # extraction_source
+    _extraction_source_links(ctx, case, newnodes, index, cl, survivors, attr_name, expect_attr)
+    return got
+
+
+def _extraction_source_links(ctx, case, newnodes, index, cl, survivors, attr_name, expect_attr):
     seen = set()
     for nd in newnodes:
         ctx.count("extraction_source_links_checked")
@@ -746,6 +762,45 @@ def check_node_extract(case, ctx):
             break
 
 
+GROUP_INPLACE = ["prune_taxa", "retain_taxa"]
+GROUP_EXTRACT = ["extract_tree", "extract_tree_with_taxa", "extract_tree_without_taxa"]
+
+
+def check_unif_group(case, ctx):
+    """One source drawing that already contains out-degree-one nodes, one survivor set, one
+    suppress setting: every API of the group is compared with the induced-subtree reference
+    (by the ordinary single-API checks) and, in addition, every extraction result must equal
+    the result of pruning / retaining in place on a fresh copy (unordered, with lengths and
+    labels) - the 'all agree' clause of the statement."""
+    results = {}
+    apis = case.get("apis") or (GROUP_INPLACE + GROUP_EXTRACT)
+    for api in apis:
+        sub = dict((k, v) for k, v in case.items() if k != "apis")
+        sub.update(kind="inplace" if api in INPLACE else "extract", api=api)
+        if api in INPLACE:
+            sub["upd"] = False
+        ctx.count("unifurcation_layer_calls")
+        results[api] = _check(sub, ctx)
+    shape, sn = _src(case)
+    nothing_excluded = len(case["keep"]) == case["n"]
+    modulo = case["suppress"] and nothing_excluded
+
+    def norm(x):
+        return ref.canon(suppress_all(x) if modulo else x)
+    for a in apis:
+        if a in INPLACE or results.get(a) is None:
+            continue
+        for b in apis:
+            if b not in INPLACE or results.get(b) is None:
+                continue
+            ctx.count("extraction_vs_inplace_agreements_checked")
+            if norm(results[a]) != norm(results[b]):
+                ctx.violation("%s|disagrees-with-in-place-%s|source-has-unifurcations" % (a, b),
+                              "on %s with survivors %s, suppress_unifurcations=%r: %s gives %s but %s on a fresh copy gives %s" % (
+                                  ref.to_newick(sn), case["keep"], case["suppress"], a, ref.to_newick(results[a]),
+                                  b, ref.to_newick(results[b])), case)
+
+
 class _Probe(object):
     """stand-in for Ctx that only records violations"""
 
@@ -785,13 +840,15 @@ def check(case, ctx):
 def _check(case, ctx):
     k = case["kind"]
     if k == "inplace":
-        check_inplace(case, ctx)
+        return check_inplace(case, ctx)
     elif k == "subtree":
         check_subtree(case, ctx)
     elif k == "extract":
-        check_extract(case, ctx)
+        return check_extract(case, ctx)
     elif k == "node_extract":
         check_node_extract(case, ctx)
+    elif k == "unifgroup":
+        check_unif_group(case, ctx)
     else:
         raise ValueError("unknown case kind %r" % (k,))
 
@@ -988,29 +1045,60 @@ def run_containers(chunk, ctx):
     return None
 
 
+def unif_drawings(shape, n, b):
+    """drawings of `shape` with pre-existing out-degree-one nodes: one chain of length 1 or 2
+    above any node (leaves and the root included) or two single insertions above any two nodes;
+    [(drawing, is_base_order)].  Up to `unifurcation_all_orders_up_to` leaves every child order
+    of every such drawing, above that the as-generated and the fully reversed order."""
+    base = sorted(set(U.with_unifurcations(shape, 1, (1, 2))) | set(U.with_unifurcations(shape, 2, (1,))), key=repr)
+    out = []
+    seen = set()
+    for d in base:
+        seen.add(d)
+        out.append((d, True))
+    for d in base:
+        others = U.all_orders(d) if n <= b["unifurcation_all_orders_up_to"] else [U.reverse_all(d)]
+        for o in sorted(set(others), key=repr):
+            if o not in seen:
+                seen.add(o)
+                out.append((o, False))
+    return out
+
+
 def run_unif(chunk, ctx):
-    """sources that already contain one out-degree-one node (above any node, the root included)"""
+    """sources that already contain out-degree-one nodes"""
     n = chunk["n"]
+    b = bounds(chunk["tier"])
     labels = U.LABELS[:n]
     shapes = U.shapes(n)
-    nt = n >= 3
+    nt = n >= 2
     for si in range(chunk["lo"], chunk["hi"]):
-        for shape in U.with_unifurcations(shapes[si], 1, (1,)):
+        for di, (shape, is_base) in enumerate(unif_drawings(shapes[si], n, b)):
+            if di % chunk["parts"] != chunk["part"]:
+                continue
             sn = source_snapshot(shape, "pow2")
             cl = ref.clade_list(sn)
             base = {"n": n, "shape": shape, "lens": "pow2", "ns": "exact", "rooted": True, "unif": True}
-            ctx.count("source_trees_with_unifurcation")
+            ctx.count("source_drawings_with_unifurcations")
             for keep in nonempty_subsets(labels):
                 for suppress in (True, False):
-                    for api in INPLACE:
-                        _do(dict(base, kind="inplace", api=api, keep=list(keep), suppress=suppress, upd=False), ctx, "unifurcation_layer_calls", nt)
-                    for api in WRAPPERS + ["extract_tree"]:
-                        _do(dict(base, kind="extract", api=api, keep=list(keep), suppress=suppress), ctx, "unifurcation_layer_calls", nt)
-            for i in range(1, len(cl)):
-                if not (ref.clade(sn) - cl[i][0]):
-                    continue          # would remove every leaf
-                for suppress in (True, False):
-                    _do(dict(base, kind="subtree", api="prune_subtree", node=i, suppress=suppress, upd=False), ctx, "unifurcation_layer_calls", nt)
+                    case = dict(base, kind="unifgroup", keep=list(keep), suppress=suppress)
+                    ctx.case(_key(case), nontrivial=nt)
+                    check_unif_group(case, ctx)
+                    if is_base:
+                        # the remaining entry points on the as-generated order
+                        for api in INPLACE:
+                            if api not in GROUP_INPLACE:
+                                _do(dict(base, kind="inplace", api=api, keep=list(keep), suppress=suppress, upd=False), ctx, "unifurcation_layer_calls", nt)
+                        for api in WRAPPERS:
+                            if api not in GROUP_EXTRACT:
+                                _do(dict(base, kind="extract", api=api, keep=list(keep), suppress=suppress), ctx, "unifurcation_layer_calls", nt)
+            if is_base:
+                for i in range(1, len(cl)):
+                    if not (ref.clade(sn) - cl[i][0]):
+                        continue          # would remove every leaf
+                    for suppress in (True, False):
+                        _do(dict(base, kind="subtree", api="prune_subtree", node=i, suppress=suppress, upd=False), ctx, "unifurcation_layer_calls", nt)
     return None
 
 
